@@ -589,6 +589,19 @@ def _join_segs(a, b):
     repetition ("rep", tail) = zero or more copies (buffers filled in loops); anything else is unknown."""
     if a is None or b is None:
         return None
+    if len(a) == len(b):
+        # same layout, different values in some numeric fields: keep the layout, forget those values
+        out = []
+        for x, y in zip(a, b):
+            if x == y:
+                out.append(x)
+            elif x[0] == y[0] == "num" and x[1] == y[1] and x[2] == y[2]:
+                out.append(("num", x[1], x[2], ("ANY", "joined"), x[4] if x[4] == y[4] else "?"))
+            else:
+                out = None
+                break
+        if out is not None:
+            return tuple(out)
     if len(a) > len(b):
         a, b = b, a
     if b[:len(a)] != a:
